@@ -11,6 +11,7 @@ import (
 
 	"github.com/kardiachain/go-kardia/kai/state"
 	"github.com/kardiachain/go-kardia/lib/common"
+	"github.com/kardiachain/go-kardia/types"
 )
 
 type runCfg struct {
@@ -18,6 +19,7 @@ type runCfg struct {
 	ObsEvery bool `json:"obs_every"` // compare all observables with the model after every token (else only at structure tokens and at the end)
 	Cold     bool `json:"cold"`      // "cold" execution: no getter is called before the cold observation point (observations warm the object's caches and can hide a wrong read path); oracles: model at that point, roots at every IntermediateRoot/Commit, read-back after the last Commit
 	ColdTail int  `json:"cold_tail"` // the one cold observation is taken after token len(prog)-1-ColdTail (i.e. before the closing tokens)
+	Iter     bool `json:"iter"`      // snapshot modes: after every observed Commit/Cap/JournalReload also walk the tree's AccountIterator/StorageIterator at the root and compare the content with the model
 	ObsAddrs int  `json:"obs_addrs"` // observe the first ObsAddrs addresses of the universe (0 = all); stages whose alphabet names one address observe that one
 }
 
@@ -49,6 +51,7 @@ var (
 	cntReadbacks    int64
 	cntCopyChecks   int64
 	cntCrossBacking int64
+	cntIterChecks   int64
 	cntColdProgs    int64
 	cntFreshReplay  int64
 	cntSnapProgs    int64
@@ -70,20 +73,22 @@ type tracer func(format string, args ...interface{})
 // chain never performs / no valid revision) does not hold; such programs are outside the quantifier.
 func run(prog []Op, c runCfg, tr tracer) (fail *failure, feasible bool) {
 	var (
-		m       model
-		R       = newReal(c.Mode)
-		revIDs  []int
-		snapObs []Obs
-		msnaps  []model
-		marks   []int
-		eff     []Op
-		bys     []bystander
-		midtx   bool // the main line is a copy taken while the journal was non-empty
-		hadRC   bool // program contained a Revert or Copy so far
-		step    int
-		locTr   int64
-		locObs  int64
-		locKind [numKinds]int32
+		m        model
+		R        = newReal(c.Mode)
+		revIDs   []int
+		snapObs  []Obs
+		msnaps   []model
+		marks    []int
+		eff      []Op
+		bys      []bystander
+		midtx    bool // the main line is a copy taken while the journal was non-empty
+		hadRC    bool // program contained a Revert or Copy so far
+		step     int
+		locTr    int64
+		locObs   int64
+		locKind  [numKinds]int32
+		fresh    = true // the StateDB has just been opened at lastRoot and nothing was done on it
+		lastRoot = types.EmptyRootHash
 	)
 	feasible = true
 	defer R.release()
@@ -140,6 +145,27 @@ func run(prog []Op, c runCfg, tr tracer) (fail *failure, feasible bool) {
 		}
 		return nil
 	}
+	// snapshot modes: what the snapshot-backed StateDB at root shows (o) must equal what a trie-only
+	// StateDB at the same root shows; optionally the tree's iterators must list exactly the model.
+	crossBacking := func(root common.Hash, o *Obs) *failure {
+		atomic.AddInt64(&cntCrossBacking, 1)
+		ts, err := state.New(root, R.db, nil)
+		if err != nil {
+			return &failure{Oracle: "snapshot-vs-trie" + sfx(), Field: "error", Detail: "state.New(root, db, nil): " + err.Error(), Step: step}
+		}
+		ot := obsReal(ts)
+		if ot != *o {
+			fields, detail := diffObs(o, &ot)
+			return &failure{Oracle: "snapshot-vs-trie" + sfx(), Field: fields[0], Detail: "StateDB reopened with the snapshot tree vs reopened trie-only at the same root: " + detail, Step: step}
+		}
+		if c.Iter {
+			atomic.AddInt64(&cntIterChecks, 1)
+			if field, detail := snapshotIteratorsVsModel(R.snaps, root, &m); field != "" {
+				return &failure{Oracle: "snapshot-iterators" + sfx(), Field: field, Detail: detail, Step: step}
+			}
+		}
+		return nil
+	}
 	var initial model
 	for step = 0; step < len(prog); step++ {
 		op := prog[step]
@@ -147,10 +173,43 @@ func run(prog []Op, c runCfg, tr tracer) (fail *failure, feasible bool) {
 			atomic.AddInt64(&cntInfeasible, 1)
 			return nil, false
 		}
+		if (op.K == kCap || op.K == kJournal) && (R.snaps == nil || !fresh) {
+			atomic.AddInt64(&cntInfeasible, 1)
+			return nil, false
+		}
 		locTr++
 		locKind[op.K]++
 		structural := true
+		fresh = false
 		switch op.K {
+		case kCap, kJournal:
+			if op.K == kCap {
+				// errors: "is disk layer" after a full flatten / nothing committed yet - a no-op then
+				_ = R.snaps.Cap(lastRoot, int(op.V))
+			} else if err := R.journalReload(lastRoot); err != nil {
+				return &failure{Oracle: "journal-reload" + sfx(), Field: "error", Detail: err.Error(), Step: step}, true
+			}
+			ns, err := state.New(lastRoot, R.db, R.snaps)
+			if err != nil {
+				return &failure{Oracle: "reopen-after-" + kindName[op.K] + sfx(), Field: "error", Detail: err.Error(), Step: step}, true
+			}
+			R.s = ns
+			fresh = true
+			if tr != nil {
+				tr("  step %d %s at root %x", step, op, lastRoot)
+			}
+			if !wantObs() {
+				continue
+			}
+			atomic.AddInt64(&cntReadbacks, 1)
+			o := obsReal(R.s)
+			if f := vsModel(&o, "readback-after-"+kindName[op.K]); f != nil {
+				return f, true
+			}
+			if f := crossBacking(lastRoot, &o); f != nil {
+				return f, true
+			}
+			continue
 		case kSnapshot:
 			id := R.s.Snapshot()
 			var o Obs
@@ -219,6 +278,7 @@ func run(prog []Op, c runCfg, tr tracer) (fail *failure, feasible bool) {
 			m.reopen()
 			clearRevs()
 			eff = append(eff, op)
+			lastRoot, fresh = root, true
 			if tr != nil {
 				tr("  step %d %s: root %x", step, op, root)
 			}
@@ -245,16 +305,8 @@ func run(prog []Op, c runCfg, tr tracer) (fail *failure, feasible bool) {
 				return f, true
 			}
 			if R.mode != modeTrie {
-				// cross-backing: the same root opened WITHOUT the snapshot tree must read the same
-				atomic.AddInt64(&cntCrossBacking, 1)
-				ts, err := state.New(root, R.db, nil)
-				if err != nil {
-					return &failure{Oracle: "snapshot-vs-trie" + sfx(), Field: "error", Detail: "state.New(root, db, nil): " + err.Error(), Step: step}, true
-				}
-				ot := obsReal(ts)
-				if ot != o {
-					fields, detail := diffObs(&o, &ot)
-					return &failure{Oracle: "snapshot-vs-trie" + sfx(), Field: fields[0], Detail: "StateDB reopened with the snapshot tree vs reopened trie-only at the same root: " + detail, Step: step}, true
+				if f := crossBacking(root, &o); f != nil {
+					return f, true
 				}
 			}
 			noteState(&m)
